@@ -39,7 +39,11 @@ MOD = "pymtl3.passes.tracing.VcdGenerationPass"
 def gen_case(R, tier):
   c = R("case")
   uid = "v%x" % (R.seed & 0xffffff)
-  if R("fam").random() < 0.06:
+  fam = R("fam").random()
+  if 0.06 <= fam < 0.11:
+    o = R("msg")
+    return {"family": "msg", "tmpl": gen_msg(o, uid), "sched": ["default", 0], "hash_seed": R.sub_seed("hash")}
+  if fam < 0.06:
     o = R("open")
     return {"family": "openloop", "tmpl": gen_open(o, uid), "calls": None, "sched": ["openloop", o.getrandbits(32)],
             "hash_seed": R.sub_seed("hash")}
@@ -245,6 +249,153 @@ def run_open(case):
   return {"violations": viols[:2], "digest": D.hex(), "nontrivial": multi >= 1, "stats": stats}
 
 
+MSG_SRC = '''
+from pymtl3 import *
+from pymtl3.stdlib.mem import mk_mem_msg
+
+Req_{uid}, Resp_{uid} = mk_mem_msg(8, 32, 32)
+
+@bitstruct
+class Hid_{uid}:
+  a: Bits4
+  b: Bits8
+  def __str__(s):
+    return "%s" % s.a
+
+class Stage_{uid}(Component):
+  def construct(s):
+    s.in_ = InPort(Req_{uid})
+    s.out = OutPort(Req_{uid})
+    s.h_in = InPort(Hid_{uid})
+    s.h_out = OutPort(Hid_{uid})
+    @update_ff
+    def up_stage():
+      s.out <<= s.in_
+      s.h_out <<= s.h_in
+
+class Top_{uid}(Component):
+  def construct(s):
+    s.req = InPort(Req_{uid})
+    s.h = InPort(Hid_{uid})
+    s.out = OutPort(Req_{uid})
+    s.h_out = OutPort(Hid_{uid})
+    s.st = [Stage_{uid}() for _ in range({n})]
+    s.st[0].in_ //= s.req
+    s.st[0].h_in //= s.h
+    for i in range({n} - 1):
+      s.st[i + 1].in_ //= s.st[i].out
+      s.st[i + 1].h_in //= s.st[i].h_out
+    s.out //= s.st[{n} - 1].out
+    s.h_out //= s.st[{n} - 1].h_out
+'''
+
+
+def gen_msg(c, uid):
+  """signals whose type has a user-written __str__ that hides a field (the stdlib memory messages blank `data`
+  for reads): consecutive cycles often differ ONLY in the hidden field"""
+  seq = []
+  cur = [c.choice([0, 1]), c.randrange(256), c.randrange(1 << 32), c.randrange(4), c.getrandbits(32)]
+  h = [c.randrange(16), c.randrange(256)]
+  for _ in range(c.randint(6, 24)):
+    r = c.random()
+    if r < 0.5:
+      cur = cur[:4] + [c.getrandbits(32)]                 # only the data field changes
+    elif r < 0.75:
+      cur = [c.choice([0, 0, 1, 6]), c.randrange(256), c.randrange(1 << 32), c.randrange(4), c.getrandbits(32)]
+    if c.random() < 0.6:
+      h = [h[0], c.randrange(256)]                        # only the hidden field changes
+    elif c.random() < 0.5:
+      h = [c.randrange(16), c.randrange(256)]
+    seq.append([list(cur), list(h)])
+  return {"uid": uid, "n": c.randint(1, 3), "seq": seq}
+
+
+def run_msg(case):
+  from ..gen import emit
+  from pymtl3.passes.PassGroups import DefaultPassGroup
+  from pymtl3.passes.tracing.PrintTextWavePass import PrintTextWavePass
+  t = case["tmpl"]
+  D = _rng.Digest()
+  stats = {"fault_counts": {"sched.default": 1, "config.custom_str_struct": 1}, "sim_cycles": 0, "vcd_bytes": 0,
+           "probes": {"shared_net_top_members": 1, "struct_signals": 1, "only_hidden_field_changed": 0}}
+  fs = seams.FakeFS()
+  viols = []
+  seams.set_hash_stream(case["hash_seed"])
+  try:
+    with seams.patched(MOD, open=fs.open):
+      mod = sys.modules[MOD]
+      real_time = mod.time
+
+      class _T:
+        @staticmethod
+        def asctime():
+          return "Thu Jan  1 00:00:00 1970"
+      mod.time = _T
+      try:
+        ns, cls, _ = emit.build({"uid": t["uid"], "top": "Top"}, src=MSG_SRC.format(uid=t["uid"], n=t["n"]))
+        top = cls()
+        top.elaborate()
+        top.apply(DefaultPassGroup(vcdwave="dsim_wave", textwave=True))
+      finally:
+        mod.time = real_time
+  except Exception as e:
+    return {"violations": [C.exc_violation(e, "build/msg")], "digest": D.hex(), "nontrivial": False, "stats": stats}
+  Req, Hid = ns["Req_" + t["uid"]], ns["Hid_" + t["uid"]]
+  sigs = sorted((x for x in top._dsl.all_signals if x.is_top_level_signal()), key=repr)
+  keys = [repr(x) for x in sigs]
+  widths = {repr(x): (x._dsl.Type.nbits if hasattr(x._dsl.Type, "nbits") else len(x._dsl.Type().to_bits())) for x in sigs}
+  # widths of struct types from their field declarations (independent of to_bits)
+  for x in sigs:
+    T = x._dsl.Type
+    if T is Req:
+      widths[repr(x)] = 4 + 8 + 32 + 2 + 32
+    elif T is Hid:
+      widths[repr(x)] = 12
+  smp = DumpSampler(cosim.Accessors(top, keys))
+  changed_cycles = {}
+  try:
+    sys.setprofile(smp.prof)
+    try:
+      top.sim_reset()
+      prev = None
+      for cur, h in t["seq"]:
+        top.req @= Req(*cur)
+        top.h @= Hid(*h)
+        if prev is not None and prev[0][:4] == cur[:4] and prev[0][4] != cur[4]:
+          stats["probes"]["only_hidden_field_changed"] += 1
+        prev = (cur, h)
+        top.sim_tick()
+    finally:
+      sys.setprofile(None)
+    text = fs.current("dsim_wave.vcd")
+    stats["vcd_bytes"] = len(text)
+    ncyc = len(smp.samples)
+    stats["sim_cycles"] = ncyc
+    if ncyc != 3 + len(t["seq"]):
+      viols.append(C.viol("dump_call_count", {"got": ncyc, "want": 3 + len(t["seq"]), "mode": "msg"}))
+    bad = check_vcd(text, smp.samples, widths, keys, ncyc)
+    if bad:
+      viols.append(C.viol(bad[0], dict(bad[1], sched="default", family="msg")))
+    tw = top.get_metadata(PrintTextWavePass.textwave_dict)
+    for k, lst in sorted(tw.items()):
+      if viols:
+        break
+      for i in range(min(ncyc, len(lst))):
+        want = "0b" + format(smp.samples[i][k], "0%db" % widths[k])
+        if lst[i] != want:
+          viols.append(C.viol("textwave_value", {"signal": k, "cycle": i, "got": lst[i], "want": want, "family": "msg"}))
+          break
+    for i in range(1, ncyc):
+      for k, v in smp.samples[i].items():
+        if v != smp.samples[i - 1][k]:
+          changed_cycles.setdefault(k, set()).add(i)
+    D.add(_rng.digest(text))
+  except Exception as e:
+    viols.append(C.exc_violation(e, "sim/msg"))
+  multi = sum(1 for k, s in changed_cycles.items() if len(s) >= 2 and not k.endswith(".clk"))
+  return {"violations": viols[:2], "digest": D.hex(), "nontrivial": multi >= 1, "stats": stats}
+
+
 class DumpSampler:
   def __init__(self, acc):
     self.acc = acc
@@ -300,6 +451,8 @@ def check_vcd(text, samples, widths, all_keys, ncycles):
 
 def run_case(case):
   from pymtl3.passes.tracing.PrintTextWavePass import PrintTextWavePass
+  if case.get("family") == "msg":
+    return run_msg(case)
   if case.get("family") == "openloop":
     return run_open(dict(case, calls=case["calls"] if case.get("calls") is not None else case["tmpl"]["calls"]))
   spec = case["spec"]
@@ -419,6 +572,8 @@ def run_case(case):
 
 def sample(case):
   from ..gen import emit
+  if case.get("family") == "msg":
+    return {"family": "msg", "n": case["tmpl"]["n"], "seq_head": case["tmpl"]["seq"][:6]}
   if case.get("family") == "openloop":
     return {"family": "openloop", "calls": case["tmpl"]["calls"][:8], "source_head": OPEN_SRC.format(**case["tmpl"])[:1200]}
   return {"profile": case["spec"].get("profile"), "sched": case["sched"], "stops": case["stops"],
@@ -426,6 +581,13 @@ def sample(case):
 
 
 def shrink(case):
+  if case.get("family") == "msg":
+    seq = case["tmpl"]["seq"]
+    for i in range(len(seq)):
+      yield dict(case, tmpl=dict(case["tmpl"], seq=seq[:i] + seq[i + 1:]))
+    if case["tmpl"]["n"] > 1:
+      yield dict(case, tmpl=dict(case["tmpl"], n=1))
+    return
   if case.get("family") == "openloop":
     calls = case["calls"] if case.get("calls") is not None else case["tmpl"]["calls"]
     for i in range(len(calls)):
